@@ -153,6 +153,8 @@ func (f *Func) LLString() string {
 func (f *Func) AssignIDs() error {
 	f.mu.Lock()
 	defer f.mu.Unlock()
+	verifTrace("lock", f, 0, 0)
+	defer verifTrace("unlock", f, 0, 0)
 	id := int64(0)
 	setName := func(n namedVar) error {
 		if n.IsUnnamed() {
@@ -161,6 +163,7 @@ func (f *Func) AssignIDs() error {
 				got := n.ID()
 				return errors.Errorf("invalid local ID in function %q, expected %s, got %s", f.Ident(), enc.LocalID(want), enc.LocalID(got))
 			}
+			verifTrace("setid", n, n.ID(), id)
 			n.SetID(id)
 			id++
 		}
